@@ -119,6 +119,44 @@ def shapes(tier):
     if tier == "thorough":
         out.append([[P("x"), P("y"), P("z"), P("w", default=True)]])
         out.append([[P("x"), P("k", "K"), P("j", "K", default=True), P("i", "K", default=True)]])
+    # systematic part: EVERY single-method shape with up to three positional parameters (each split into positional-only / named,
+    # every number of trailing defaults) and no / a required / an optional keyword-only parameter (90 shapes); every PAIR of such
+    # shapes with up to one (thorough: two) positional parameters, named alike and named differently at the last place
+    def singles(maxpos):
+        names = ["x", "y", "z"]
+        for npos in range(maxpos + 1):
+            for nposonly in range(npos + 1):
+                for ndef in range(npos + 1):
+                    for kw in (None, False, True):
+                        m = [P(names[i], "O" if i < nposonly else "P", default=i >= npos - ndef) for i in range(npos)]
+                        if kw is not None:
+                            m.append(P("k", "K", default=kw))
+                        yield m
+
+    def key(sh):
+        return "|".join(",".join(p["name"] + p["kind"] + ("?" if p["default"] else "") + ("^" if p.get("typeann") else "") for p in m) or "()" for m in sh)
+
+    seen = {key(sh) for sh in out}
+    for m in singles(3):
+        if key([m]) not in seen:
+            seen.add(key([m]))
+            out.append([m])
+    if True:
+        base = list(singles(2 if tier == "thorough" else 1))
+        for a in base:
+            for b in base:
+                variants = [b]
+                posb = [p for p in b if p["kind"] != "K"]
+                if posb and posb[-1]["kind"] == "P":
+                    variants.append([dict(p, name="q") if p is posb[-1] else p for p in b])
+                for b_ in variants:
+                    sh = [a, b_]
+                    # two methods with identical parameter lists replace one another: not a two-method shape
+                    if key([a]) == key([b_]):
+                        continue
+                    if key(sh) not in seen:
+                        seen.add(key(sh))
+                        out.append(sh)
     res = []
     for sh in out:
         res.append((sh, False))
